@@ -184,6 +184,33 @@ type runnablePipeline struct {
 	// stops for an unrelated reason gets ordinary recovery semantics again, not
 	// a stale "this was user-stopped" marker from a previous run.
 	intentionalStop atomic.Bool
+	// stopRequests counts the stop requests that currently hold intentionalStop
+	// (guarded by stopMu): every stop that is still trying to arm the workers,
+	// every graceful stop that armed at least one, every force stop. A graceful
+	// stop that armed nothing only takes back its OWN request; the marker is
+	// cleared when no request is left. Without the count a stop that timed out
+	// also erased the marker of a concurrent (or earlier, accepted) stop.
+	stopMu       sync.Mutex
+	stopRequests int
+}
+
+// markIntentionalStop records a stop request on this run.
+func (rp *runnablePipeline) markIntentionalStop() {
+	rp.stopMu.Lock()
+	defer rp.stopMu.Unlock()
+	rp.stopRequests++
+	rp.intentionalStop.Store(true)
+}
+
+// withdrawIntentionalStop takes back the request of a graceful stop that armed
+// nothing and clears the marker if no other stop request holds it.
+func (rp *runnablePipeline) withdrawIntentionalStop() {
+	rp.stopMu.Lock()
+	defer rp.stopMu.Unlock()
+	rp.stopRequests--
+	if rp.stopRequests == 0 {
+		rp.intentionalStop.Store(false)
+	}
 }
 
 // ConnectorService can fetch and create a connector instance, and report when
@@ -357,7 +384,7 @@ func (s *Service) stopRunnablePipeline(ctx context.Context, rp *runnablePipeline
 		// instead of misreading it as a spontaneous failure and
 		// auto-restarting via recoverPipeline. See the intentionalStop field
 		// doc.
-		rp.intentionalStop.Store(true)
+		rp.markIntentionalStop()
 
 		// H1 (adversarial review of #2734): every worker's Stop call is
 		// dispatched CONCURRENTLY, all against the SAME ctx deadline,
@@ -451,8 +478,9 @@ func (s *Service) stopRunnablePipeline(ctx context.Context, rp *runnablePipeline
 			// instead of being permanently (and incorrectly) treated as an
 			// already-completed user stop. Mirrors the original
 			// single-worker rollback condition ("nothing began stopping"),
-			// generalized to "no worker began stopping".
-			rp.intentionalStop.Store(false)
+			// generalized to "no worker began stopping". Only this call's own
+			// request is taken back: the marker stays if another stop holds it.
+			rp.withdrawIntentionalStop()
 		case len(unarmedSources) > 0:
 			// H1 (adversarial review): PARTIAL arming. Some source(s) armed
 			// and tore down their connector; other(s) are still reading.
@@ -518,7 +546,7 @@ func (s *Service) stopRunnablePipeline(ctx context.Context, rp *runnablePipeline
 		// transient error (e.g. it is parked in the recovery backoff wait) the
 		// Kill below is a no-op, and the marker is what keeps recovery from
 		// restarting it.
-		rp.intentionalStop.Store(true)
+		rp.markIntentionalStop()
 		rp.t.Kill(cerrors.FatalError(pipeline.ErrForceStop))
 		return nil
 	}
